@@ -24,6 +24,13 @@ def returned_local(body):
         l = op_local(ds[0]["stmt"]["rv"]["op"])
         if l is not None:
             return l
+    # the buffer is built in another representation and converted at the end: `s.into_bytes()`, `Vec::from(s)`,
+    # `String::from_utf8(v)`: the accumulator is the converted local (byte content unchanged by these conversions)
+    cs = [d for d in body.defs().get(0, []) if d["kind"] == "call"]
+    if len(cs) == 1 and not ds and re.search(r"String::into_bytes$|String::into_boxed_str$|convert::(From::from|Into::into)$|Vec::<T, A>::into_boxed_slice$", cs[0]["term"]["callee"]) and len(cs[0]["term"]["args"]) == 1:
+        l = root_local(body, cs[0]["term"]["args"][0])
+        if l is not None and re.search(r"^std::string::String$|^std::vec::Vec<u8>$", body.local_ty(l)):
+            return l
     return 0
 
 
@@ -240,14 +247,15 @@ def slice_from_param_only(body, sl, plocal):
 # ------------------------------------------------------------------------------------------------
 # K9 accumulator ("collect all complaints, then fail") analysis
 # ------------------------------------------------------------------------------------------------
-IS_EMPTY = r"Vec::<T, A>::is_empty$|slice::<impl \[T\]>::is_empty$"  # the list itself or its slice view (a helper taking &[..])
+IS_EMPTY = r"Vec::<T, A>::is_empty$|slice::<impl \[T\]>::is_empty$|String::is_empty$|str>::is_empty$"  # the list itself, its slice view, or a String used as the list
 
 
 def accumulator_facts(body, acc):
     """Facts about a Vec local used as complaint accumulator.
     Returns dict(created_empty, pushes=[blocks], bad_ops=[(block, callee)], tests=[(block, term)])."""
     defs = body.defs().get(acc, [])
-    created = [d for d in defs if d["kind"] == "call" and re.search(r"Vec::<T>::new$", d["term"].get("callee", ""))]
+    is_string = body.local_ty(acc) == "std::string::String"
+    created = [d for d in defs if d["kind"] == "call" and re.search(r"Vec::<T>::new$|String::new$", d["term"].get("callee", ""))]
     other_defs = [d for d in defs if d["kind"] in ("assign",) or (d["kind"] == "call" and d not in created)]
     pushes, bad = [], []
     for d in defs:
@@ -255,6 +263,24 @@ def accumulator_facts(body, acc):
             c = d["term"].get("callee", "")
             if re.search(r"Vec::<T, A>::push$", c):
                 pushes.append(d["block"])
+            elif is_string and re.search(r"String::push_str$", c):
+                # a complaint appended to a String keeps it non-empty only if the text is non-empty: require a
+                # non-empty literal piece (format! text / constant)
+                sl = body.slice_op(d["term"]["args"][1])
+                def literal_text(k):
+                    v = const_value(k)
+                    if isinstance(v, str):
+                        return bool(v.strip())
+                    # the packed template of format_args! is a byte string: length-prefixed literal pieces
+                    return isinstance(v, bytes) and sl.has_call(r"fmt::Arguments::<'a>::new\w*$|fmt::format$") and sum(1 for x in v if 33 <= x < 127) >= 2
+                if any(literal_text(k) for k in sl.consts):
+                    pushes.append(d["block"])
+                else:
+                    bad.append((d["block"], c + " (possibly empty text)"))
+            elif is_string and re.search(r"String::push$|ops::Deref::deref$|String::as_str$|String::len$|String::is_empty$|String::reserve$", c):
+                continue  # separators / reads: never make a non-empty String empty
+            elif re.search(r"ops::Deref::deref$|Vec::<T, A>::(len|is_empty|as_slice|iter)$", c):
+                continue
             else:
                 bad.append((d["block"], c))
     tests = []
@@ -262,7 +288,9 @@ def accumulator_facts(body, acc):
         sl = body.slice_op(t["args"][0])
         if acc in sl.locals:
             tests.append((bi, t))
-    return {"created_empty": len(created) == 1 and not other_defs, "pushes": pushes, "bad_ops": bad, "tests": tests}
+    # tests inside the appending code itself (`if !msg.is_empty() { msg.push(' ') }`) are not the final verdict
+    final = [(bi, t) for bi, t in tests if not any(pb in body._reachable_from(bi) for pb in pushes)]
+    return {"created_empty": len(created) == 1 and not other_defs, "pushes": pushes, "bad_ops": bad, "tests": final or tests, "all_tests": tests}
 
 
 def ok_guarded_by_empty(body, acc, ok_block):
@@ -515,3 +543,129 @@ def only_formatted(body, local):
                 continue
             return False
     return True
+
+
+def element_component(body, operand, depth=6):
+    """For a value read as component K of the element of an iterator pipeline whose closure was summary-spliced
+    (`for (name, values) in list.iter().filter_map(|h| map.get(h).map(|v| (h, v)))`): the Slice of that component
+    alone (the tuple operand K built in the closure), or None if the operand is not of that shape."""
+    o = operand
+    p = None
+    for _ in range(depth):
+        od = body.origin_def(o)
+        if od and od[0] == "place":
+            p = od[1]
+            break
+        if od and od[0] == "def" and od[1]["kind"] == "call" and re.search(r"(::as_bytes|::as_str|ops::Deref::deref|convert::AsRef::as_ref|::as_slice|borrow::Borrow::borrow)$", od[1]["term"]["callee"]):
+            o = od[1]["term"]["args"][0]
+            continue
+        return None
+    if p is None:
+        return None
+    nd = [e for e in p["proj"] if e != "deref"]
+    if len(nd) < 3 or nd[0].get("downcast") != "Some" or "field" not in nd[1] or "field" not in nd[2]:
+        return None
+    k = nd[2]["idx"]
+    nx = body.single_def(p["local"])
+    if not (nx and nx["kind"] == "call" and re.search(r"Iterator::next$", nx["term"]["callee"])):
+        return None
+    adaptors = [t for _, t in body.slice_op(nx["term"]["args"][0]).calls if t.get("summary_operand") is not None]
+    if len(adaptors) != 1:
+        return None
+    ad = adaptors[0]
+    res = ad["args"][ad["summary_operand"]]
+    name = ad["callee"].split("::")[-1]
+    rl = op_local(res)
+    if rl is None:
+        return None
+    for _ in range(4):  # the closure's return place, copied into the summary operand
+        ds_ = [d for d in body.defs().get(rl, []) if d["kind"] != "mutcall"]
+        if len(ds_) == 1 and ds_[0]["kind"] == "assign" and ds_[0]["stmt"]["rv"]["k"] == "use" and op_local(ds_[0]["stmt"]["rv"]["op"]) is not None:
+            rl = op_local(ds_[0]["stmt"]["rv"]["op"])
+        else:
+            break
+    tuples = []
+    if name in ("filter_map", "find_map"):
+        for d in body.defs().get(rl, []):
+            if d["kind"] == "assign" and d["stmt"]["rv"]["k"] == "aggregate" and d["stmt"]["rv"].get("variant") == "Some":
+                t0 = body.origin_def(d["stmt"]["rv"]["ops"][0])
+                if t0 and t0[0] == "def" and t0[1]["kind"] == "assign" and t0[1]["stmt"]["rv"].get("tuple"):
+                    tuples.append(t0[1]["stmt"]["rv"])
+                else:
+                    return None
+    elif name == "map":
+        t0 = body.origin_def({"copy": {"local": rl, "proj": []}})
+        if t0 and t0[0] == "def" and t0[1]["kind"] == "assign" and t0[1]["stmt"]["rv"].get("tuple"):
+            tuples.append(t0[1]["stmt"]["rv"])
+    if len(tuples) != 1 or k >= len(tuples[0]["ops"]):
+        return None
+    return body.slice_op(tuples[0]["ops"][k])
+
+
+def split_part(body, operand, sep):
+    """0 / 1 if operand is the text before / after the first `sep` of some slice or str, cut by position:
+    `&s[..i]` / `&s[i + 1..]` with `i = s.iter().position(|c| *c == sep)` or `i = s.find(sep)`. None otherwise."""
+    o = operand
+    od = None
+    for _ in range(6):
+        od = body.origin_def(o)
+        if od and od[0] == "def" and od[1]["kind"] == "call" and re.search(r"ops::Deref::deref$|convert::AsRef::as_ref$|::as_bytes$|::as_str$", od[1]["term"]["callee"]):
+            o = od[1]["term"]["args"][0]
+            continue
+        break
+    if not (od and od[0] == "def" and od[1]["kind"] == "call" and re.search(r"ops::Index::index$", od[1]["term"]["callee"])):
+        return None
+    t = od[1]["term"]
+    rg = body.origin_def(t["args"][1])
+    if not (rg and rg[0] == "def" and rg[1]["kind"] == "assign" and rg[1]["stmt"]["rv"]["k"] == "aggregate"):
+        return None
+    rv = rg[1]["stmt"]["rv"]
+    kind = str(rv.get("adt", "")).split("::")[-1]
+    if kind not in ("RangeTo", "RangeFrom"):
+        return None
+
+    def pos_of(op, plus):
+        """is `op` == position-result (+ plus)?"""
+        if plus:
+            d = body.origin_def(op)
+            # (i + 1): checked add `(AddWithOverflow(i, 1)).0` or plain Add
+            p_ = op_place(op)
+            src = None
+            if d and d[0] == "place":
+                sd = body.single_def(d[1]["local"])
+                if sd and sd["kind"] == "assign" and sd["stmt"]["rv"]["k"] == "binop" and sd["stmt"]["rv"]["op"].startswith("Add"):
+                    src = sd["stmt"]["rv"]
+            elif d and d[0] == "def" and d[1]["kind"] == "assign" and d[1]["stmt"]["rv"]["k"] == "binop" and d[1]["stmt"]["rv"]["op"].startswith("Add"):
+                src = d[1]["stmt"]["rv"]
+            if src is None or const_value(op_const(body.resolve_copy(src["r"])) or {}) != 1:
+                return None
+            op = src["l"]
+        d = body.origin_def(op)
+        if not (d and d[0] == "place"):
+            return None
+        nd = [e for e in d[1]["proj"] if e != "deref"]
+        if not (len(nd) == 2 and nd[0].get("downcast") in ("Some", "Continue") and "field" in nd[1]):
+            return None
+        h = body.single_def(d[1]["local"])
+        if h and h["kind"] == "call" and re.search(r"ops::Try::branch$", h["term"]["callee"]):
+            hd = body.origin_def(h["term"]["args"][0])
+            h = hd[1] if hd and hd[0] == "def" else None
+        return h if h and h["kind"] == "call" else None
+
+    h = pos_of(rv["ops"][0], kind == "RangeFrom")
+    if h is None:
+        return None
+    c = h["term"]["callee"]
+    same_subject = root_local(body, t["args"][0]) is not None
+    if re.search(r"Iterator::position$", c):
+        # the predicate compares the element with the separator constant
+        sl = body.slice_op(h["term"]["args"][-1]) if h["term"].get("summary_operand") is not None else None
+        ok = sl is not None and sep in [const_value(k) for k in sl.consts] and bool(sl.find_calls(r"PartialEq::eq$") or any(d_["stmt"]["rv"].get("op") == "Eq" for d_ in sl.assigns if d_["stmt"]["rv"]["k"] == "binop"))
+        if not ok or body.slice_op(h["term"]["args"][0]).has_call(r"Iterator::(rev|skip|take|filter)$|rposition$"):
+            return None
+    elif re.search(r"str>::find$", c):
+        if const_value(op_const(body.resolve_copy(h["term"]["args"][1])) or {}) != sep:
+            return None
+    else:
+        return None
+    return 0 if kind == "RangeTo" else 1
